@@ -460,6 +460,11 @@ def verify_function(interp, contract: Contract, inst: Instance, prop_prefix=""):
         if contract.pre is not None:
             contract.pre(SpecCtx(interp, ctx, contract, mode="verify"), *pristine_args, **pristine_kwargs)
         interp.no_contract.add(contract.qualname)
+        # a variant "f#case" exercises the real body of f: f's own contract must not stand in for it (circular)
+        base_qn = contract.qualname.split("#")[0]
+        added_base = base_qn != contract.qualname and base_qn not in interp.no_contract
+        if added_base:
+            interp.no_contract.add(base_qn)
         if getattr(contract, "on_path_start", None):
             contract.on_path_start(interp, ctx)
         # reductions carried by an element loop over a symbolic index space are specified by the contract
@@ -474,6 +479,8 @@ def verify_function(interp, contract: Contract, inst: Instance, prop_prefix=""):
             return
         finally:
             interp.no_contract.discard(contract.qualname)
+            if added_base:
+                interp.no_contract.discard(base_qn)
         c = SpecCtx(interp, ctx, contract, mode="verify")
         want = run_outcome(lambda: contract.spec(c, *pristine_args, **pristine_kwargs))
         compare_outcomes(interp, ctx, got, want)
